@@ -398,16 +398,20 @@ func (r *Router) AddChunkFilter(filter ChunkFilter) {
 func (r *Router) assignIPAddress() (net.IP, error) {
 	// See: https://stackoverflow.com/questions/14915188/ip-address-ending-with-zero
 
-	if r.lastID == 0xfe {
-		return nil, errAddressSpaceExhausted
+	for r.lastID != 0xfe {
+		ip := make(net.IP, 4)
+		copy(ip, r.ipv4Net.IP[:3])
+		r.lastID++
+		ip[3] = r.lastID
+
+		// Skip an address that a NIC already holds (a static IP inside the
+		// range of automatically assigned addresses).
+		if _, inUse := r.nics[ip.String()]; !inUse {
+			return ip, nil
+		}
 	}
 
-	ip := make(net.IP, 4)
-	copy(ip, r.ipv4Net.IP[:3])
-	r.lastID++
-	ip[3] = r.lastID
-
-	return ip, nil
+	return nil, errAddressSpaceExhausted
 }
 
 func (r *Router) push(c Chunk) {
